@@ -1,12 +1,5 @@
 // ===== prelude/wal_spec.rs: worker request types, RaftLogWAL (copied) and Inv_WAL =====
-//@struct src/raft_log/wal/flush_worker.rs FileEntry
-//@struct src/raft_log/wal/flush_request.rs SeqRequest
-//@struct src/raft_log/wal/flush_request.rs WriteRequest
-//@struct src/raft_log/wal/flush_request.rs FlushStat
-//@enum src/raft_log/wal/flush_request.rs WorkerRequest
-/// stand-in for Arc<AtomicU64> `done_seq` (only read by wait_worker_idle, which is not under contract)
-#[verifier::external_body]
-pub struct DoneSeq { a: std::sync::Arc<std::sync::atomic::AtomicU64> }
+//@include prelude/wal_reqs.rs
 //@struct src/raft_log/wal/mod.rs RaftLogWAL allpub sub=#Arc<AtomicU64>#DoneSeq# attr=#[verifier::reject_recursive_types(T)]
 
 /// magnitudes assumed small (DESIGN 8.6): 2^62
